@@ -876,7 +876,12 @@ func (s *Session) Exec(op Op) (line string) {
 				line = "out=panic #msg=" + errMsg(fmt.Errorf("%v", r))
 			}
 		}()
-		if err := gs.Validate(); err != nil {
+		// through the module's own entry point (module.go): JSON-encode, AppModuleBasic.ValidateGenesis
+		bz, jerr := s.w.jsonCdc().MarshalJSON(&gs)
+		if jerr != nil {
+			return "harness-json-error " + errMsg(jerr)
+		}
+		if err := (cctp.AppModuleBasic{}).ValidateGenesis(s.w.jsonCdc(), nil, bz); err != nil {
 			return "out=err #tag=" + errTag(err) + " #msg=" + errMsg(err)
 		}
 		return "out=ok"
@@ -889,7 +894,11 @@ func (s *Session) Exec(op Op) (line string) {
 			}
 		}()
 		s.w.writes = nil
-		cctp.InitGenesis(cacheCtx, s.w.k, gs)
+		bz, jerr := s.w.jsonCdc().MarshalJSON(&gs)
+		if jerr != nil {
+			return "harness-json-error " + errMsg(jerr)
+		}
+		cctp.NewAppModule(s.w.k).InitGenesis(cacheCtx, s.w.jsonCdc(), bz)
 		commit()
 		return "out=ok"
 	case "genesis-export":
@@ -899,12 +908,13 @@ func (s *Session) Exec(op Op) (line string) {
 			}
 		}()
 		s.w.writes = nil
-		g := cctp.ExportGenesis(s.w.ctx, s.w.k)
+		var g types.GenesisState
+		s.w.jsonCdc().MustUnmarshalJSON(cctp.NewAppModule(s.w.k).ExportGenesis(s.w.ctx, s.w.jsonCdc()), &g)
 		wr := ""
 		if len(s.w.writes) > 0 {
 			wr = fmt.Sprintf(" #qwrites=%d", len(s.w.writes))
 		}
-		return "out=ok " + showGenesis(g) + wr
+		return "out=ok " + showGenesis(&g) + wr
 	case "tx":
 		m := buildMsg(op.Sub, kv)
 		if m == nil {
